@@ -156,6 +156,12 @@ def get_pca(target_psd_matrix, use_scipy=False):
             # It is likely that eig is more stable than eigh.
             eigenvals, eigenvecs = np.linalg.eig(target_psd_matrix)
             eigenvals = eigenvals.real
+            # In contrast to eigh, eig does not sort the eigenvalues.
+            order = np.argsort(eigenvals, axis=-1)
+            eigenvals = np.take_along_axis(eigenvals, order, axis=-1)
+            eigenvecs = np.take_along_axis(
+                eigenvecs, order[..., None, :], axis=-1
+            )
 
         # Select eigenvec for max eigenval. Eigenvals are sorted in ascending order.
         beamforming_vector = eigenvecs[..., -1]
